@@ -113,7 +113,7 @@ func (rn *runner) callbackThenSignIn(i int, r *rand.Rand, flow, state, csrf, giv
 	}
 
 	rd := readBrowser(loc2, "https")
-	if rd.Kind != "authority" || rd.Host != lowerASCII(as.Host) || rd.Port != "" {
+	if !rn.isOwn(rd) {
 		rep.Count("wholeflow_callback_target_not_authenticator", 1)
 		return
 	}
